@@ -235,9 +235,10 @@ InitLedgers ==
         ELSE IF a = Proposer THEN [ZeroAcct EXCEPT !.bal = N(5), !.stake = N(3)]
         ELSE IF a = Target THEN [ZeroAcct EXCEPT !.bal = N(tb), !.code = tc, !.cstake = IF tc /\ ts THEN N(2) ELSE Zero,
                                                 !.store = IF tc THEN {<<"k", "1">>, <<"o", "1">>} ELSE {}]
-        ELSE IF a = Other THEN [ZeroAcct EXCEPT !.code = oc, !.bal = IF oc THEN N(1) ELSE Zero]
+        \* (an address without code may hold coins already when a contract is deployed at it: Target, Other)
+        ELSE IF a = Other THEN [ZeroAcct EXCEPT !.code = (oc = 2), !.bal = IF oc >= 1 THEN N(1) ELSE Zero]
         ELSE [ZeroAcct EXCEPT !.stake = N(1)]]
-     : tb \in {0, 2}, tc \in BOOLEAN, ts \in BOOLEAN, oc \in BOOLEAN}
+     : tb \in {0, 2}, tc \in BOOLEAN, ts \in BOOLEAN, oc \in {0, 1, 2}}
 
 Init == /\ led \in InitLedgers /\ pre0 = led /\ pc = "idle"
         /\ tx = [kind |-> "none"] /\ rc = [success |-> FALSE, gasUsed |-> 0, gasCost |-> Zero, oog |-> FALSE]
@@ -321,7 +322,9 @@ RunSub(k, amt, deploy) ==
     /\ LET caller == SetReq(frames[D], Ctx, Monus(CurBal(Ctx), N(amt)))
            callee == [ctx |-> k, par |-> Ctx, pay |-> N(amt), req |-> <<>>, wr |-> <<>>,
                       dep |-> IF deploy THEN {k} ELSE {}, burnt |-> Zero, moved |-> Zero]
-       IN frames' = Append([frames EXCEPT ![D] = caller], SetReq(callee, k, Plus(CurBal(k), N(amt))))
+           \* WasmEnv.CreateSubEnv: the callee's buffer starts from what the address holds already - also when it is being created
+           start == IF Bug = "subdeploy_forgets_balance" /\ deploy THEN N(amt) ELSE Plus(CurBal(k), N(amt))
+       IN frames' = Append([frames EXCEPT ![D] = caller], SetReq(callee, k, start))
     /\ Spend(IF deploy THEN "subdeploy" ELSE "subcall")
 
 Merge(par, ch) == [par EXCEPT !.req = [x \in DOMAIN par.req \cup DOMAIN ch.req |-> IF x \in DOMAIN ch.req THEN ch.req[x] ELSE par.req[x]],
